@@ -76,7 +76,8 @@ Definition G0 (s s' : vsock) : Prop :=
   st_rel (v_state s) (v_state s') /\
   (exists l, v_out s' = l ++ v_out s /\ Forall (pk_ok (v_state s')) l) /\
   (v_inbox s = [] -> v_inbox s' = []) /\
-  v_inbox_closed s' = v_inbox_closed s.
+  v_inbox_closed s' = v_inbox_closed s /\
+  v_opts s' = v_opts s.
 
 (* nobody but transition_to_fin_wait_1 moves into FinWait1.  (The arm of the receive loop that runs
    when the dispatcher's channel is closed calls it too, but sets the state to Closed at once; only
@@ -89,10 +90,13 @@ Definition G (s s' : vsock) : Prop := G0 s s' /\ W s s'.
 Lemma G0_refl s : G0 s s.
 Proof. unfold G0. split; [apply st_rel_refl|]. split; [exists []; split; [reflexivity|constructor]|]. auto. Qed.
 
+Lemma G0_opts a b : G0 a b -> v_opts b = v_opts a.
+Proof. intros (_ & _ & _ & _ & H). exact H. Qed.
+
 Lemma G0_trans a b c : G0 a b -> G0 b c -> G0 a c.
 Proof.
-  intros (A1 & (l1 & A2 & A3) & A4 & A5) (B1 & (l2 & B2 & B3) & B4 & B5).
-  split; [eapply st_rel_trans; eauto|]. split; [|split; [auto|congruence]].
+  intros (A1 & (l1 & A2 & A3) & A4 & A5 & A6) (B1 & (l2 & B2 & B3) & B4 & B5 & B6).
+  split; [eapply st_rel_trans; eauto|]. split; [|split; [auto|split; congruence]].
   exists (l2 ++ l1). split; [rewrite B2, A2, app_assoc; reflexivity|].
   apply Forall_app. split; [exact B3|]. eapply Forall_impl; [|exact A3]. intro p. apply pk_ok_mono. exact B1.
 Qed.
@@ -115,32 +119,33 @@ Proof. intros [H _]; exact H. Qed.
 (* the three ways a primitive step relates its states *)
 Lemma G_same (s s' : vsock) :
   v_state s' = v_state s -> v_out s' = v_out s -> v_inbox s' = v_inbox s ->
-  v_inbox_closed s' = v_inbox_closed s -> G s s'.
+  v_inbox_closed s' = v_inbox_closed s -> v_opts s' = v_opts s -> G s s'.
 Proof.
-  intros E1 E2 E3 E4. split.
+  intros E1 E2 E3 E4 E6. split.
   - split; [rewrite E1; apply st_rel_refl|]. split; [exists []; split; [exact E2|constructor]|].
-    split; [congruence|exact E4].
+    split; [congruence|split; [exact E4|exact E6]].
   - intros f Hf. congruence.
 Qed.
 
 Lemma G_emit (s s' : vsock) p :
   v_state s' = v_state s -> v_out s' = p :: v_out s -> v_inbox s' = v_inbox s ->
-  v_inbox_closed s' = v_inbox_closed s -> pk_ok (v_state s) p -> G s s'.
+  v_inbox_closed s' = v_inbox_closed s -> v_opts s' = v_opts s -> pk_ok (v_state s) p -> G s s'.
 Proof.
-  intros E1 E2 E3 E4 Hp. split.
+  intros E1 E2 E3 E4 E6 Hp. split.
   - split; [rewrite E1; apply st_rel_refl|].
     split; [exists [p]; split; [exact E2|constructor; [rewrite E1; exact Hp|constructor]]|].
-    split; [congruence|exact E4].
+    split; [congruence|split; [exact E4|exact E6]].
   - intros f Hf. congruence.
 Qed.
 
 Lemma G_state (s s' : vsock) :
   st_rel (v_state s) (v_state s') -> v_out s' = v_out s -> (v_inbox s = [] -> v_inbox s' = []) ->
-  v_inbox_closed s' = v_inbox_closed s ->
+  v_inbox_closed s' = v_inbox_closed s -> v_opts s' = v_opts s ->
   (forall f, v_state s' = FinWait1 f -> v_state s = FinWait1 f) -> G s s'.
 Proof.
-  intros E1 E2 E3 E4 E5. split.
-  - split; [exact E1|]. split; [exists []; split; [exact E2|constructor]|]. split; [exact E3|exact E4].
+  intros E1 E2 E3 E4 E6 E5. split.
+  - split; [exact E1|]. split; [exists []; split; [exact E2|constructor]|].
+    split; [exact E3|split; [exact E4|exact E6]].
   - exact E5.
 Qed.
 
@@ -160,7 +165,7 @@ Proof.
   intros (A & WA) (B & HB). split; [eapply G0_trans; eauto|].
   destruct HB as [WB|(Hc & He)].
   - left. intros f Hf. apply WA. apply WB. exact Hf.
-  - right. split; [|exact He]. destruct A as (_ & _ & _ & A5). congruence.
+  - right. split; [|exact He]. destruct A as (_ & _ & _ & A5 & _). congruence.
 Qed.
 
 (* [sG]: an error is never the reset error.  [sGr]: no claim on the error (incoming path). *)
@@ -373,7 +378,7 @@ Proof.
   unfold transition_to_fin_wait_1.
   destruct (v_state s) eqn:Es; try apply G0_refl;
     (split; [vsimpl; rewrite Es; exact I|]; split; [exists []; split; [reflexivity|constructor]|];
-     split; [vsimpl; auto|reflexivity]).
+     split; [vsimpl; auto|split; reflexivity]).
 Qed.
 
 Lemma maybe_send_fin_err (s s' : vsock) e : maybe_send_fin s = SErr s' e -> e = ErrSend.
@@ -453,7 +458,7 @@ Proof.
   - split.
     + eapply G0_trans; [exact HT|]. eapply G0_trans; [apply G_G0; exact HF|].
       split; [vsimpl; destruct (v_state s2); exact I|].
-      split; [exists []; split; [reflexivity|constructor]|]. split; [vsimpl; auto|reflexivity].
+      split; [exists []; split; [reflexivity|constructor]|]. split; [vsimpl; auto|split; reflexivity].
     + intros f Hf. vsimpl. discriminate.
   - destruct HF as [(HF & _) He]. split; [|exact He]. split; [eapply G0_trans; eauto|].
     right. split; [exact Hc|]. eapply maybe_send_fin_err; exact Em.
@@ -474,11 +479,54 @@ Qed.
 Lemma acked_counts_as_sent_G (s : vsock) : G s (acked_counts_as_sent s).
 Proof. unfold acked_counts_as_sent. destruct (seq_gt _ _); [g_same|apply G_refl]. Qed.
 
-Lemma process_all_G (s : vsock) : sGr s (process_all_incoming_messages cci s).
+(* the bookkeeping of process_all_incoming_messages after the receive loop *)
+Definition pa_tail (s1 : vsock) (res : on_ack_result * bool) : step unit :=
+    let '(r, _) := res in
+      let s2 :=
+        if (0 <? ar_acked_segments r) || (0 <? ar_newly_sacked_segments r) then
+          let s' := set_rto_retransmissions s1 0 in
+          match ss_segs (v_segs s'), our_fin_if_unacked (v_state s') with
+          | [], None => set_t_inactivity (set_t_retransmit s' None) None
+          | _, _ =>
+              restart_remote_inactivity_timer
+                (set_t_retransmit s' (timer_arm (v_t_retransmit s') (v_now s')
+                                        (retransmission_timeout (v_rtte s')) true))
+          end
+        else s1 in
+      let s3o : step unit :=
+        if 0 <? ar_acked_segments r then
+          let s2 := acked_counts_as_sent s2 in
+          let '(tx1, tr) := truncate_front (v_tx s2) (ar_acked_bytes r) in
+          match tr with
+          | TrBug _ _ => SErr (set_tx s2 tx1) (ErrBug BugTruncateFront)
+          | TrOk => let '(tx2, w) := wake_writer tx1 in
+                    SOk (add_wakes (set_tx s2 tx2) (tx_wakes w)) tt
+          end
+        else SOk s2 tt in
+      sbind s3o (fun s3 _ =>
+        match rv_phase (v_recovery s3) with
+        | Recovering rc =>
+            match calc_pipe (v_segs s3) (rc_high_rxt rc) (v_last_sent_seq_nr s3)
+                            (roundtrip_time (v_rtte s3)) (v_now s3) with
+            | None => SPanic
+            | Some (segs', pipe, recalc) =>
+                SOk (set_recovering (set_segs s3 segs')
+                       {| rc_recovery_point := rc_recovery_point rc; rc_high_rxt := rc_high_rxt rc;
+                          rc_total_retx := rc_total_retx rc; rc_pipe := pipe; rc_recalc := recalc;
+                          rc_cwnd := rc_cwnd rc |}) tt
+            end
+        | _ => SOk s3 tt
+        end).
+
+Lemma process_all_eq (s : vsock) :
+  process_all_incoming_messages cci s =
+  sbind (recv_loop cci (v_inbox s ++ [ {| m_hdr := outgoing_header s; m_payload := [] |} ]) s
+                   on_ack_result_default) pa_tail.
+Proof. reflexivity. Qed.
+
+Lemma pa_tail_G (s1 : vsock) res : sGr s1 (pa_tail s1 res).
 Proof.
-  unfold process_all_incoming_messages.
-  apply sGr_bind; [apply recv_loop_G|].
-  intros s1 [r early]. cbv beta iota zeta.
+  destruct res as [r early]. unfold pa_tail. cbv beta iota zeta.
   match goal with |- context [acked_counts_as_sent ?x] =>
     assert (F2 : G s1 x); [|abs_as x F2 s2] end.
   { destruct (_ || _); [|apply G_refl].
@@ -494,6 +542,52 @@ Proof.
   intros s3 _. destruct (rv_phase _); try apply G_refl.
   destruct (calc_pipe _ _ _ _ _) as [[[segs' pipe] recalc]|]; [|exact I].
   cbn [sGr]. eapply G_trans; [|apply set_recovering_G]. g_same.
+Qed.
+
+(* the bookkeeping touches neither the inbox, nor the state, nor the transport flag *)
+Definition keeps_in (s s' : vsock) : Prop :=
+  v_inbox s' = v_inbox s /\ v_state s' = v_state s /\ v_opts s' = v_opts s /\
+  v_transport_pending s' = v_transport_pending s.
+
+Lemma pa_tail_keeps (s1 : vsock) res s3 u : pa_tail s1 res = SOk s3 u -> keeps_in s1 s3.
+Proof.
+  destruct res as [r early]. unfold pa_tail, keeps_in. cbv beta iota zeta.
+  match goal with |- context [acked_counts_as_sent ?x] =>
+    assert (F2 : keeps_in s1 x); [|abs_as x F2 s2] end.
+  { unfold keeps_in. destruct (_ || _); [|auto].
+    destruct (ss_segs _); [destruct (our_fin_if_unacked _)|];
+      unfold restart_remote_inactivity_timer; vsimpl; auto. }
+  assert (K : forall s3' : vsock, keeps_in s1 s3' ->
+     match rv_phase (v_recovery s3') with
+     | Recovering rc =>
+         match calc_pipe (v_segs s3') (rc_high_rxt rc) (v_last_sent_seq_nr s3')
+                         (roundtrip_time (v_rtte s3')) (v_now s3') with
+         | None => SPanic
+         | Some (segs', pipe, recalc) =>
+             SOk (set_recovering (set_segs s3' segs')
+                    {| rc_recovery_point := rc_recovery_point rc; rc_high_rxt := rc_high_rxt rc;
+                       rc_total_retx := rc_total_retx rc; rc_pipe := pipe; rc_recalc := recalc;
+                       rc_cwnd := rc_cwnd rc |}) tt
+         end
+     | _ => SOk s3' tt
+     end = SOk s3 u -> keeps_in s1 s3).
+  { intros s3' F3. destruct (rv_phase _).
+    - intro H; injection H as <-. exact F3.
+    - intro H; injection H as <-. exact F3.
+    - destruct (calc_pipe _ _ _ _ _) as [[[segs' pipe] recalc]|]; [|discriminate].
+      intro H; injection H as <-. exact F3. }
+  destruct (0 <? ar_acked_segments r).
+  - assert (Ha : keeps_in s1 (acked_counts_as_sent s2))
+      by (unfold acked_counts_as_sent; destruct (seq_gt _ _); exact F2).
+    revert Ha. generalize (acked_counts_as_sent s2). intros s2' Ha.
+    destruct (truncate_front _ _) as [tx1 tr]. destruct tr; cbn [sbind]; [|discriminate].
+    destruct (wake_writer tx1) as [tx2 w]. apply K. exact Ha.
+  - cbn [sbind]. apply K. exact F2.
+Qed.
+
+Lemma process_all_G (s : vsock) : sGr s (process_all_incoming_messages cci s).
+Proof.
+  rewrite process_all_eq. apply sGr_bind; [apply recv_loop_G|]. intros s1 res. apply pa_tail_G.
 Qed.
 
 (* ------------------------------------------------------------------ handshake *)
@@ -606,9 +700,10 @@ Proof.
   destruct J as (J1 & _ & _ & J4 & J5 & _ & J7).
   assert (Ho : v_out (just_before_death s1 e) = v_out s1).
   { destruct J7 as [J7|(Hl & He & _)]; [exact J7|]. destruct Hc; congruence. }
-  destruct H as (A1 & (l & A2 & A3) & A4 & A5).
+  destruct H as (A1 & (l & A2 & A3) & A4 & A5 & A6).
   split; [rewrite J1; exact A1|]. split; [exists l; rewrite Ho, J1; auto|].
-  split; [intro Hi; rewrite J4; auto|congruence].
+  split; [intro Hi; rewrite J4; auto|]. split; [congruence|].
+  pose proof (just_before_death_frame s1 e) as ((Fo & _) & _). congruence.
 Qed.
 
 (* ------------------------------------------------------------------ poll_body, in two parts *)
@@ -634,11 +729,14 @@ Definition body_back (s : vsock) : body_res :=
   pend (maybe_send_fin s) (fun s _ =>
   pend (maybe_send_ack s) (fun s _ => body_finish s)).
 
-(* everything before, with the rest as a continuation *)
-Definition body_front (k : vsock -> body_res) (s0 : vsock) : body_res :=
+(* everything before, with the rest as a continuation: the head (up to the incoming messages) and the
+   middle part (flush, inactivity, segmentation, send_tx_queue) *)
+Definition body_head (k : vsock -> body_res) (s0 : vsock) : body_res :=
   pend (maybe_send_syn_ack (body_start s0)) (fun s _ =>
   pend (if immediate_ack_to_transmit s then send_ack s else SOk s false) (fun s _ =>
-  pend (process_all_incoming_messages cci s) (fun s _ =>
+  pend (process_all_incoming_messages cci s) (fun s _ => k s))).
+
+Definition body_mid (k : vsock -> body_res) (s : vsock) : body_res :=
   let '(rx1, fr, w) := rx_flush (v_rx s) in
   match fr with
   | FlPanic => BrPanic
@@ -648,7 +746,9 @@ Definition body_front (k : vsock -> body_res) (s0 : vsock) : body_res :=
     else
     bail (split_tx_queue_into_segments cci s) (fun s _ =>
     pend (send_tx_queue cci s) (fun s _ => k s))
-  end))).
+  end.
+
+Definition body_front (k : vsock -> body_res) (s0 : vsock) : body_res := body_head (body_mid k) s0.
 
 Lemma poll_body_parts s0 : poll_body cci s0 = body_front body_back s0.
 Proof. reflexivity. Qed.
@@ -657,7 +757,7 @@ Proof. reflexivity. Qed.
 Definition early (s : vsock) (r : body_res) : Prop :=
   match r with
   | BrRestart s' => G s s'
-  | BrReturn s' PollPending => G s s'
+  | BrReturn s' PollPending => G s s' /\ v_transport_pending s' = true
   | BrReturn s' (PollReadyErr e) => exists s1, GE s s1 e /\ s' = just_before_death s1 (Some e)
   | BrReturn _ _ => False
   | BrPanic => True
@@ -681,26 +781,38 @@ Lemma pend_walk {A} (P : body_res -> Prop) (s0 s : vsock) (m : step A) k :
   P (pend m k).
 Proof.
   intros F Hm He Hk. unfold pend. eapply bail_walk; eauto.
-  intros s1 a Em F1 R. destruct (v_transport_pending s1) eqn:T; [apply He; exact F1|].
+  intros s1 a Em F1 R. destruct (v_transport_pending s1) eqn:T; [apply He; split; assumption|].
   rewrite R. apply Hk; assumption.
 Qed.
 
 Lemma body_start_G (s0 : vsock) : G s0 (body_start s0).
 Proof. unfold body_start. g_same. Qed.
 
-Lemma body_front_walk (P : body_res -> Prop) k (s0 : vsock) :
+Lemma body_head_walk (P : body_res -> Prop) k (s0 : vsock) :
+  (forall r, early s0 r -> P r) ->
+  (forall s2 s3, G s0 s2 -> v_transport_pending s2 = false ->
+                 process_all_incoming_messages cci s2 = SOk s3 tt -> G s0 s3 ->
+                 v_restart s3 = false -> v_transport_pending s3 = false -> P (k s3)) ->
+  P (body_head k s0).
+Proof.
+  intros He Hk. unfold body_head.
+  eapply pend_walk; [apply body_start_G|apply sG_sGr, maybe_send_syn_ack_G|exact He|]. intros s1 _ _ F1 _ _.
+  eapply pend_walk; [exact F1| |exact He|].
+  { destruct (immediate_ack_to_transmit s1); [apply sG_sGr, send_ack_G|apply G_refl]. }
+  intros s2 _ _ F2 _ T2.
+  eapply pend_walk; [exact F2|apply process_all_G|exact He|]. intros s3 [] E3 F3 R3 T3.
+  apply (Hk s2 s3); assumption.
+Qed.
+
+Lemma body_mid_walk (P : body_res -> Prop) k (s0 s3 : vsock) :
+  G s0 s3 ->
   (forall r, early s0 r -> P r) ->
   (forall s4 s5 s6, G s0 s4 -> split_tx_queue_into_segments cci s4 = SOk s5 tt ->
                     send_tx_queue cci s5 = SOk s6 tt -> G s0 s6 ->
                     v_restart s6 = false -> v_transport_pending s6 = false -> P (k s6)) ->
-  P (body_front k s0).
+  P (body_mid k s3).
 Proof.
-  intros He Hk. unfold body_front.
-  eapply pend_walk; [apply body_start_G|apply sG_sGr, maybe_send_syn_ack_G|exact He|]. intros s1 _ _ F1 _ _.
-  eapply pend_walk; [exact F1| |exact He|].
-  { destruct (immediate_ack_to_transmit s1); [apply sG_sGr, send_ack_G|apply G_refl]. }
-  intros s2 _ _ F2 _ _.
-  eapply pend_walk; [exact F2|apply process_all_G|exact He|]. intros s3 _ _ F3 _ _.
+  intros F3 He Hk. unfold body_mid.
   destruct (rx_flush (v_rx s3)) as [[rx1 fr] w]. destruct fr; cbv beta iota zeta; [|apply He; exact I].
   assert (F4 : G s0 (add_wakes (set_rx s3 rx1) (rx_wakes w))).
   { eapply G_trans; [exact F3|]. eapply G_trans; [|apply add_wakes_G]. g_same. }
@@ -712,11 +824,26 @@ Proof.
   apply (Hk s4 s5 s6); assumption.
 Qed.
 
-(* what a whole poll_body does, under G0 *)
+Lemma body_front_walk (P : body_res -> Prop) k (s0 : vsock) :
+  (forall r, early s0 r -> P r) ->
+  (forall s4 s5 s6, G s0 s4 -> split_tx_queue_into_segments cci s4 = SOk s5 tt ->
+                    send_tx_queue cci s5 = SOk s6 tt -> G s0 s6 ->
+                    v_restart s6 = false -> v_transport_pending s6 = false -> P (k s6)) ->
+  P (body_front k s0).
+Proof.
+  intros He Hk. unfold body_front. apply body_head_walk; [exact He|].
+  intros s2 s3 _ _ _ F3 _ _. apply (body_mid_walk P k s0 s3 F3 He Hk).
+Qed.
+
+(* what a whole poll_body does, under G0; a Pending return with a writable transport comes from the end
+   of the body, where the connection is not closed *)
+Definition not_closed (s : vsock) : Prop :=
+  state_is_closed (v_state s) (o_wait_for_last_ack (v_opts s)) = false.
+
 Definition bG0 (s0 : vsock) (r : body_res) : Prop :=
   match r with
   | BrRestart s' => G0 s0 s'
-  | BrReturn s' PollPending => G0 s0 s'
+  | BrReturn s' PollPending => G0 s0 s' /\ (v_transport_pending s' = false -> not_closed s')
   | BrReturn s' PollReadyOk => exists s1, G0 s0 s1 /\ s' = just_before_death s1 None
   | BrReturn s' (PollReadyErr e) => exists s1, G0 s0 s1 /\ s' = just_before_death s1 (Some e)
   | BrReturn _ PollPanic => False
@@ -726,7 +853,8 @@ Definition bG0 (s0 : vsock) (r : body_res) : Prop :=
 Lemma early_bG0 s0 r : early s0 r -> bG0 s0 r.
 Proof.
   destruct r as [s' [| |e|]|s'|]; cbn [early bG0]; auto using G_G0; try tauto.
-  intros (s1 & H & E). exists s1. split; [apply H|exact E].
+  - intros [H T]. split; [apply G_G0; exact H|]. intro X. congruence.
+  - intros (s1 & H & E). exists s1. split; [apply H|exact E].
 Qed.
 
 Definition sG0 {A} (s : vsock) (m : step A) : Prop :=
@@ -740,22 +868,25 @@ Lemma pend_G0 {A} (s0 s : vsock) (m : step A) k :
 Proof.
   intros F Hm Hk. unfold pend, bail. destruct m as [s1 a|s1 e|]; cbn [sG0] in Hm; [| |exact I].
   - assert (F1 : G0 s0 s1) by (eapply G0_trans; eauto).
-    destruct (v_restart s1); [exact F1|]. destruct (v_transport_pending s1); [exact F1|].
-    apply Hk; exact F1.
+    destruct (v_restart s1); [exact F1|]. destruct (v_transport_pending s1) eqn:T.
+    + cbn [bG0]. split; [exact F1|]. intro X. congruence.
+    + apply Hk; exact F1.
   - unfold die. cbn [bG0]. exists s1. split; [eapply G0_trans; eauto|reflexivity].
 Qed.
 
 Lemma body_finish_G0 (s0 s : vsock) : G0 s0 s -> bG0 s0 (body_finish s).
 Proof.
-  intro F. unfold body_finish. destruct (state_is_closed _ _).
+  intro F. unfold body_finish. destruct (state_is_closed _ _) eqn:Ec.
   { cbn [bG0]. exists s. auto. }
-  match goal with |- context [next_timer_to_poll ?x] => assert (F10 : G0 s0 x); [|abs_as x F10 s10] end.
-  { destruct (is_local_fin_or_later (v_state s)); exact F. }
+  match goal with |- context [next_timer_to_poll ?x] =>
+    assert (F10 : G0 s0 x /\ not_closed x); [|abs_as x F10 s10] end.
+  { destruct (is_local_fin_or_later (v_state s)); split; try exact F; exact Ec. }
+  destruct F10 as [F10 N10].
   unfold next_timer_to_poll, arm_in, add_wakes. destruct (v_transport_pending s10).
-  - destruct (v_t_inactivity s10); cbn [bG0]; [|exact F10].
-    destruct (_ <=? _); exact F10.
+  - destruct (v_t_inactivity s10); cbn [bG0]; [|split; [exact F10|intros _; exact N10]].
+    destruct (_ <=? _); (split; [exact F10|intros _; exact N10]).
   - match goal with |- bG0 _ (BrReturn match ?t with _ => _ end _) => destruct t end; cbn [bG0];
-      [destruct (_ <=? _)|]; exact F10.
+      [destruct (_ <=? _)|]; (split; [exact F10|intros _; exact N10]).
 Qed.
 
 Lemma body_back_G0 (s0 s6 : vsock) : G0 s0 s6 -> bG0 s0 (body_back s6).
@@ -766,6 +897,14 @@ Proof.
   eapply pend_G0; [exact F7|apply sG_sG0, maybe_send_fin_G|]. intros s8 _ F8.
   eapply pend_G0; [exact F8|apply sG_sG0, maybe_send_ack_G|]. intros s9 _ F9.
   apply body_finish_G0. exact F9.
+Qed.
+
+(* the middle and back parts from any state reached under G *)
+Lemma body_mid_back_G0 (s0 s3 : vsock) : G s0 s3 -> bG0 s0 (body_mid body_back s3).
+Proof.
+  intro F3. apply (body_mid_walk (bG0 s0) body_back s0 s3 F3).
+  - apply early_bG0.
+  - intros s4 s5 s6 _ _ _ F6 _ _. apply body_back_G0. apply G_G0. exact F6.
 Qed.
 
 Theorem poll_body_G0 (s0 : vsock) : bG0 s0 (poll_body cci s0).
